@@ -1,8 +1,10 @@
 """C20 - result and mesh files contain exactly what was computed.
 
 Offline checker: files written through the API (Mesh.write, MeshContainer, Job.evaluate(filename=...), tools.save) are
-re-opened with meshio and compared with the in-memory objects; for jobs the in-memory sequence is the one recorded by the
-SolverMonitor's event log (job.callback events carry copies of the substep fields, job.write events the frame times).
+re-opened with meshio and compared with the in-memory objects; for jobs the in-memory sequence is the one the steps yield (an
+own recorder at Step.generate keeps copies of every yielded field, residual and iteration count) next to the one recorded by the
+SolverMonitor's event log (job.callback events carry copies of the substep fields, job.write events the frame times). Expected
+values are what the case built or handed over (copies taken before the call), never what the written object says afterwards.
 """
 import os
 import shutil
@@ -10,12 +12,48 @@ import tempfile
 
 import numpy as np
 
-from .. import attach, problems
+from .. import attach, gen, problems
 from ..monitors.solver import SolverMonitor, check_trace
 from ..util import maxabs, rng_for
 from . import C07
 
 VOIGT = [(0, 0), (1, 1), (2, 2), (0, 1), (1, 2), (0, 2)]
+VOIGT2 = [(0, 0), (1, 1), (0, 1)]  # a plain 2D field has a 2x2 deformation gradient: three Voigt columns, the shear doubled as in 3D
+
+
+def record_yields(store):
+    """Own recorder at the Step.generate boundary (put on top of the SolverMonitor's wrapper, undone by attach.detach_all).
+
+    The in-memory sequence a job file is judged against is what the steps *yield* (copies of the field values, of the
+    residual and of the iteration count of every yielded result), not what the job's own loop reports to its callback:
+    a substep that the loop neither reports nor writes is then a missing frame.
+    """
+    import felupe.mechanics._step as S
+    inner = S.Step.generate
+
+    def generate(self_, **kwargs):
+        for res in inner(self_, **kwargs):
+            store.append({"step": id(self_), "values": [np.array(f.values, dtype=float).copy() for f in res.x.fields],
+                          "fun": np.array(res.fun, dtype=float).ravel().copy(), "iterations": int(res.iterations)})
+            yield res
+    S.Step.generate = generate
+    attach._undo.append((S.Step, "generate", inner))
+
+
+def rows_of(points, cells):
+    """Corner coordinates of every cell, one row per cell, in the order of the cells."""
+    return np.asarray(points)[np.asarray(cells)].reshape(len(cells), -1)
+
+
+def scatter_mean(values, cells, npoints):
+    """Own shift of quadrature-point values (..., q, c) to the mesh points: the value at the a-th quadrature point of a cell goes
+    to the a-th point of that cell (one value per cell goes to all of them), every point takes the mean over its cells."""
+    shape, ppc = values.shape[:-2], cells.shape[1]
+    out, cnt = np.zeros((npoints, *shape)), np.zeros(npoints)
+    for a in range(ppc):
+        np.add.at(out, cells[:, a], np.moveaxis(values[..., a if values.shape[-2] > 1 else 0, :], -1, 0))
+        np.add.at(cnt, cells[:, a], 1.0)
+    return out / np.maximum(cnt, 1.0).reshape(-1, *([1] * len(shape)))
 
 
 class scratch:
@@ -51,6 +89,7 @@ def case_roundtrip(name):
         rng = rng_for(run.seed, "C20", "roundtrip", name)
         m = all_meshes()[name]
         m = m.copy(points=m.points + 0.05 * rng.uniform(-1, 1, m.points.shape))  # non-trivial coordinates
+        cells0 = np.array(m.cells).copy()  # what the caller built (the file is judged against this, not against the mesh after writing)
         with scratch() as d:
             for ext, writer in [(e, w) for e in ("vtk", "vtu", "xdmf") for w in ("write", "save")]:
                 fn_ = os.path.join(d, "%s_%s.%s" % (name, writer, ext))
@@ -80,6 +119,29 @@ def case_roundtrip(name):
                              "writing and reading back a %s mesh as %s does not give the same points, cells and cell type" % (name, ext),
                              {"cell_type_back": m2.cell_type, "cells_equal": bool(np.array_equal(m2.cells, m.cells)),
                               "points_equal": bool(m2.points.shape == m.points.shape and np.array_equal(m2.points, m.points))})
+                # the file itself, as any other reader sees it (not through felupe's own read, which could undo what write did):
+                # one cell block, named by the literal cell type, holding the caller's connectivity
+                if len(raw.cells) == 1 and raw.cells[0].type == name and np.array_equal(np.asarray(raw.cells[0].data), cells0):
+                    run.ok("files.mesh", unit="mesh:file-cell-block", config=("raw-cells", name, ext))
+                else:
+                    run.fail("files.mesh", "celltype=%s format=%s clause=file-cell-block" % (name, ext),
+                             "the cell block of a %s mesh written as %s (read with meshio alone) is not the mesh's cell type and connectivity" % (name, ext),
+                             {"blocks": [(c.type, list(np.shape(c.data))) for c in raw.cells]})
+                if writer != "write":
+                    continue
+                # the documented **kwargs of write(): data handed over for the meshio mesh are written next to the mesh
+                pa, pv, cc = rng.uniform(-1, 1, m.npoints), rng.uniform(-1, 1, (m.npoints, 3)), rng.uniform(-1, 1, m.ncells)
+                fn2 = os.path.join(d, "%s_data.%s" % (name, ext))
+                try:
+                    m.write(fn2, point_data={"pa": pa.copy(), "pv": pv.copy()}, cell_data={"cc": [cc.copy()]})
+                    rawd = meshio.read(fn2)
+                    got = [np.asarray(rawd.point_data["pa"]).reshape(pa.shape), np.asarray(rawd.point_data["pv"]).reshape(pv.shape), np.asarray(rawd.cell_data["cc"][0]).reshape(cc.shape)]
+                except (Exception, SystemExit) as exc:
+                    run.fail("files.mesh", "celltype=%s format=%s clause=write-with-data" % (name, ext),
+                             "write(filename, point_data=, cell_data=): the data are not in the file or it cannot be read back (%s: %s)" % (type(exc).__name__, str(exc)[:120]))
+                    continue
+                run.compare("files.mesh", "celltype=%s format=%s clause=write-with-data" % (name, ext), max(maxabs(got[0] - pa), maxabs(got[1] - pv), maxabs(got[2] - cc)), 0.0,
+                            "write(filename, point_data=, cell_data=): the data read back differ from the arrays handed over", unit="mesh:write-with-data", config=("write-data", name, ext))
     return fn
 
 
@@ -135,6 +197,60 @@ def case_container(rep):
                     continue
                 run.compare("files.container", "format=%s clause=line-container-roundtrip" % ext, float(got.shape != want.shape) or maxabs(got - want), 1e-12,
                             "a container of line meshes read back from %s has other cells" % ext, unit="container:lines", config=("line-container", ext))
+            # one block per mesh (combined=False, also for meshes of one cell type) and the documented selections of read():
+            # cellblock (an index or a slice of the blocks of the file), dim=None (points as they are in the file), file_format=
+            import meshio
+            q2 = fem.Rectangle(a=(2, 0), b=(3, 1), n=(2, int(rng.integers(3, 5))))
+            parts = [m_.copy(points=m_.points + 0.02 * rng.uniform(-1, 1, m_.points.shape)) for m_ in (r, t, q2)]
+            cont3 = fem.MeshContainer(parts)
+            wanted = [rows_of(m_.points[:, :2], m_.cells) for m_ in parts]  # corner coordinates of the cells of every mesh, built before anything is written
+            same_cells = lambda ms, ws: len(ms) == len(ws) and all(np.array_equal(rows_of(m_.points[:, :2], m_.cells), w_) for m_, w_ in zip(ms, ws))  # meshes, in order, cell by cell
+            for ext in ("vtk", "vtu", "xdmf"):
+                fn_ = os.path.join(d, "blocks." + ext)
+                try:
+                    cont3.as_meshio(combined=False).write(fn_)
+                    raw = meshio.read(fn_)
+                    blocks = [(c.type, rows_of(raw.points[:, :2], np.asarray(c.data))) for c in raw.cells]
+                except (SystemExit, Exception) as exc:
+                    run.fail("files.container", "format=%s clause=one-block-per-mesh" % ext, "as_meshio(combined=False) written to %s cannot be read back (%s)" % (ext, type(exc).__name__))
+                    continue
+                if [b_[0] for b_ in blocks] == ["quad", "triangle", "quad"] and all(b_[1].shape == w_.shape and np.array_equal(b_[1], w_) for b_, w_ in zip(blocks, wanted)):
+                    run.ok("files.container", unit="container:one-block-per-mesh", config=("combined=False", ext))
+                else:
+                    run.fail("files.container", "format=%s clause=one-block-per-mesh" % ext,
+                             "as_meshio(combined=False): the file does not hold one cell block per mesh of the container, in order, with the cells of that mesh",
+                             {"blocks": [(b_[0], list(b_[1].shape)) for b_ in blocks]})
+                    continue
+                for sel in (None, 0, 1, -1, slice(1, None), slice(0, 2)):
+                    for dim_ in (2, None):
+                        key = "cellblock=%s clause=read-cellblock" % ("None" if sel is None else type(sel).__name__)
+                        try:
+                            mc = fem.mesh.read(fn_, dim=dim_, cellblock=sel)
+                        except (SystemExit, Exception) as exc:
+                            run.fail("files.container", key, "read(cellblock=%s, dim=%s) of a %s file raises %s" % (sel, dim_, ext, type(exc).__name__))
+                            continue
+                        want = wanted if sel is None else (wanted[sel] if isinstance(sel, slice) else [wanted[sel]])
+                        pts_ok = all(m_.points.shape[1] == (2 if dim_ == 2 else raw.points.shape[1]) and maxabs(m_.points[:, 2:]) == 0 for m_ in mc.meshes)
+                        if not pts_ok:
+                            run.fail("files.container", "dim=%s clause=read-points-of-the-file" % dim_, "read(dim=%s) of a %s file: the meshes do not carry the points of the file (%s)" % (
+                                dim_, ext, "cut to two columns" if dim_ == 2 else "unchanged"), {"points": [list(m_.points.shape) for m_ in mc.meshes]})
+                        elif same_cells(mc.meshes, want):
+                            run.ok("files.container", unit="read:cellblock", config=("cellblock", ext, str(sel), dim_))
+                        else:
+                            run.fail("files.container", key, "read(cellblock=%s, dim=%s) of a %s file does not return the selected cell blocks of the file (in order)" % (sel, dim_, ext),
+                                     {"meshes": [(m_.cell_type, list(m_.cells.shape), list(m_.points.shape)) for m_ in mc.meshes]})
+            # a file whose name says nothing about its format
+            fn_ = os.path.join(d, "blocks.dat")
+            try:
+                cont3.as_meshio(combined=False).write(fn_, file_format="vtk")
+                mc = fem.mesh.read(fn_, file_format="vtk", dim=2)
+                same = same_cells(mc.meshes, wanted)
+            except (SystemExit, Exception) as exc:
+                same = False
+            if same:
+                run.ok("files.container", unit="read:file-format", config=("file_format", "vtk"))
+            else:
+                run.fail("files.container", "clause=read-file-format", "read(filename, file_format='vtk') of a file without a known extension does not return the cell blocks of the file")
     return fn
 
 
@@ -187,144 +303,342 @@ def case_container3d(rep):
     return fn
 
 
-def case_job(rep):
+JOBS = [("3d", "hexahedron"), ("planestrain", "quad"), ("3d", "tetra"), ("ni", "hexahedron"), ("3d", "hexahedron20"), ("mixed", "hexahedron"), ("axisymmetric", "quad")]
+# second list (third audit): plain 2D fields (2x2 deformation gradient: other branches of the Voigt / principal-value export), bodies on
+# sub-meshes with the global container handed over as x0 (the written container is then not the field of the first item), and the cell
+# families no job had used
+JOBS_MORE = [("plane2d", "quad"), ("multibody", "hexahedron"), ("3d", "tetra10"), ("planestrain", "triangle"), ("plane2d", "triangle6"),
+             ("planestrain", "quad8"), ("multibody", "quad"), ("axisymmetric", "quad9"), ("plane2d", "triangle"), ("3d", "hexahedron27")]
+JOBS_MORE_QUICK = 9  # the quick tier leaves out the last one (27-point hexahedra: the assembly of that job costs as much as all others together)
+DEFAULT_CELL_DATA = ("Deformation Gradient", "Logarithmic Strain", "Principal Values of Logarithmic Strain")
+
+
+def build_job(rng, kind, fam, extras=()):
+    """(container whose values are written, boundaries, items, mesh of that container, x0 to hand over or None)"""
+    import felupe as fem
+    if kind not in ("plane2d", "multibody"):
+        field, bounds, lc, items, mesh = C07.build(rng, kind, fam, "NeoHooke", extras)
+        return field, bounds, items, mesh, None
+    mesh, L = problems.box_mesh(fam, rng)
+    mk = lambda m_: fem.FieldContainer([fem.Field(gen.make_region(fam, m_), dim=m_.dim)])  # plain fields: dim x dim deformation gradient
+    field = mk(mesh)
+    move = float(rng.uniform(0.05, 0.25)) * L[0]
+    bounds = fem.dof.uniaxial(field, clamped=bool(rng.integers(0, 2)), move=move, axis=0, sym=(False, True, True)[: mesh.dim])[0]
+    # laws that are stress free at F = I for a 2x2 deformation gradient as well
+    umat = lambda: (fem.NeoHookeCompressible(mu=float(rng.uniform(0.5, 2)), lmbda=float(rng.uniform(1, 4))) if rng.integers(0, 2)
+                    else fem.LinearElasticLargeStrain(E=float(rng.uniform(1, 3)), nu=float(rng.uniform(0.1, 0.4))))
+    if kind == "plane2d":
+        return field, bounds, [fem.SolidBody(umat(), field)], mesh, None
+    # two bodies on sub-meshes (all points, a part of the cells each), the boundaries and the start field live on the whole mesh
+    cx = mesh.points[mesh.cells].mean(1)[:, 0]
+    left = cx < np.median(cx)
+    parts = [fem.Mesh(mesh.points, mesh.cells[sel], mesh.cell_type) for sel in (left, ~left)]
+    return field, bounds, [fem.SolidBody(umat(), mk(m_)) for m_ in parts], mesh, field
+
+
+def evaluate_and_judge(run, mon, ys, job, fname, opts, J):
+    """Evaluate one job into ``fname`` and judge the file against the sequence the steps yielded (``ys``, see record_yields), the
+    callback events of the SolverMonitor and the description ``J`` of what the case built and asked for. Returns the number of frames judged."""
+    import felupe as fem
+    import meshio
+    label, field, kind, fam, inject, fail_at, total = J["label"], J["field"], J["kind"], J["fam"], J["inject"], J["fail_at"], J["total"]
+    pflag, cflag, pdata, cdata, custom = J["pflag"], J["cflag"], J["pdata"], J["cdata"], J["custom"]
+    del ys[:]
+    n0 = len(mon.trace.events)
+    ntrack0 = len(job.timetrack)
+    raised = None
+    try:
+        job.evaluate(filename=fname, point_data=pdata, cell_data=cdata, verbose=False, tol=1e-9, maxiter=10, **opts)
+    except ValueError as e:
+        raised = e
+    rec = [e for e in mon.trace.events[n0:] if e["kind"] == "job.callback"]
+    writes = [e for e in mon.trace.events[n0:] if e["kind"] == "job.write"]
+    if not os.path.exists(fname):
+        run.fail("files.job", "clause=file-written", "%s: no file written" % label)
+        return 0
+    with meshio.xdmf.TimeSeriesReader(fname) as rd:
+        pts, cells = rd.read_points_cells()
+        nframes = rd.num_steps
+        frames = [rd.read_data(k) for k in range(nframes)]
+    if nframes == len(rec) == len(writes):
+        run.ok("files.job", unit="job:frame-count", config=("frames", J["nsteps"], inject),
+               sample={"job": label, "frames": int(nframes), "converged_substeps": len(rec), "failure_at": fail_at})
+    else:
+        run.fail("files.job", "clause=one-frame-per-converged-substep", "%s: %d frames in the file, %d converged substeps" % (label, nframes, len(rec)))
+        return 0
+    # the same count against what the steps yielded (the callback events above are produced by the loop that writes the frames)
+    if nframes == len(ys):
+        run.ok("files.job", unit="job:frames=yields", config=("frames=yields", J["nsteps"], inject))
+    else:
+        run.fail("files.job", "clause=one-frame-per-yielded-substep", "%s: %d frames in the file, the steps yielded %d converged substeps" % (label, nframes, len(ys)))
+        return 0
+    # ... and against the ramps the case drew: a job that ends without a failure has written every substep of every step
+    if not inject:
+        if raised is not None:
+            run.skip("files.job", "a regular substep did not converge")
+        elif nframes == total:
+            run.ok("files.job", unit="job:frames=ramp", config=("frames=ramp", total))
+        else:
+            run.fail("files.job", "clause=all-substeps-of-the-ramps-written", "%s: %d frames in the file, the ramps of the steps have %d substeps and the job ended regularly" % (label, nframes, total))
+    if inject:
+        if raised is not None and nframes == fail_at:
+            run.ok("files.job", unit="job:early-stop")
+        elif raised is not None and nframes < fail_at:
+            run.skip("files.job", "a regular substep failed before the injected one")
+        elif raised is None:
+            run.skip("files.job", "injected infeasible substep converged")
+        else:
+            run.fail("files.job", "clause=early-stop-frames", "%s: %d frames although the job failed at substep %d" % (label, nframes, fail_at))
+    # the mesh of the file: the one handed over as mesh=, else the mesh of the x0 container, else that of the first item's field
+    P, conn, ctype = J["points"], J["cells"], J["cell_type"]
+    if pts.shape[0] != P.shape[0] or not np.array_equal(pts[:, : P.shape[1]], P) or (pts.shape[1] > P.shape[1] and maxabs(pts[:, P.shape[1]:]) != 0):
+        run.fail("files.job", "clause=mesh-points", "%s: points in the file differ from the mesh (or the padded coordinate is not zero)" % label)
+    elif J["mesh_given"]:
+        run.ok("files.job", unit="job:option:mesh")
+    if len(cells) == 1 and cells[0].type == ctype and np.array_equal(np.asarray(cells[0].data), conn):
+        run.ok("files.job", unit="job:mesh-cells", config=("job-cells", fam))
+    else:
+        run.fail("files.job", "clause=mesh-cells", "%s: cell block of the file (type / connectivity) differs from the mesh of the job" % label)
+    times = [f[0] for f in frames]
+    if times == list(range(nframes)):
+        run.ok("files.job", unit="job:frame-order")
+    else:
+        run.fail("files.job", "clause=frame-order", "%s: frame times %s" % (label, times))
+    # the documented record of the job: the times at which this evaluation wrote its frames
+    track = list(job.timetrack[ntrack0:])
+    if track == times:
+        run.ok("files.job", unit="job:timetrack")
+    else:
+        run.fail("files.job", "clause=timetrack", "%s: job.timetrack grew by %s in this evaluation, the frames of the file have the times %s" % (label, track[:12], times[:12]))
+    reg = field.region
+    want_p = ({"Displacement"} if pflag else set()) | set(pdata or {})
+    want_c = (set(DEFAULT_CELL_DATA) if cflag else set()) | set(cdata or {})
+    for k, (t, pd, cd) in enumerate(frames):
+        u = rec[k]["values"][0]
+        u3 = np.pad(u, ((0, 0), (0, 3 - u.shape[1])))
+        y = ys[k]
+        # the substep reported to the job's callback is the k-th yielded one
+        run.compare("files.job", "clause=callback-sees-yielded-substep", maxabs(u - y["values"][0]) if u.shape == y["values"][0].shape else np.inf, 0.0,
+                    "%s: the field reported to the callback for frame %d is not the field of the %d-th yielded substep" % (label, k, k), unit="job:callback=yield")
+        if not (pflag or cflag):
+            if set(pd) == want_p and set(cd) == want_c:
+                run.ok("files.job", unit="job:no-default-data")
+            else:
+                run.fail("files.job", "clause=no-default-data", "%s: with the default data switched off frame %d holds %s / %s" % (label, k, sorted(pd), sorted(cd)))
+        elif not (pflag and cflag):
+            # one of the two flags off: each one switches its own kind of default data, the caller's data are written in any case
+            if set(pd) == want_p and set(cd) == want_c:
+                run.ok("files.job", unit="job:one-default-flag", config=("flags", pflag, cflag, custom))
+            else:
+                run.fail("files.job", "clause=default-data-flags point=%s cell=%s" % (pflag, cflag),
+                         "%s: with point_data_default=%s, cell_data_default=%s frame %d holds %s / %s" % (label, pflag, cflag, k, sorted(pd), sorted(cd)))
+        missing = [k_ for k_ in want_p if k_ not in pd] + [k_ for k_ in want_c if k_ not in cd]
+        if missing:
+            # the documented default data are written next to the caller's own data
+            if pflag and cflag:
+                run.fail("files.job", "clause=default-data-present", "%s: frame %d lacks the default data %s" % (label, k, sorted(missing)))
+            continue
+        F0 = type(field[0])(reg, dim=u.shape[1], values=u)
+        Fq = fem.FieldContainer([F0]).extract()[0]
+        if pflag:
+            run.compare("files.job", "clause=frame-displacement", maxabs(pd["Displacement"] - u3), 0.0,
+                        "%s: 'Displacement' of frame %d differs from the field of converged substep %d" % (label, k, k),
+                        unit="job:displacement", config=("displacement", kind))
+            y3 = np.pad(y["values"][0], ((0, 0), (0, 3 - y["values"][0].shape[1])))
+            run.compare("files.job", "clause=frame-displacement[yielded]", maxabs(pd["Displacement"] - y3) if y3.shape == np.shape(pd["Displacement"]) else np.inf, 0.0,
+                        "%s: 'Displacement' of frame %d differs from the field of the %d-th yielded substep" % (label, k, k),
+                        unit="job:displacement=yield", config=("displacement=yield", kind, fam))
+        if cflag:
+            # documented per-cell quantities, recomputed from the recorded field
+            Fm = np.moveaxis(Fq.mean(-2), -1, 0)
+            got = np.asarray(cd["Deformation Gradient"][0])
+            run.compare("files.job", "clause=frame-cell-data key=Deformation Gradient", maxabs(got.reshape(Fm.shape) - Fm) / maxabs(Fm) if got.size == Fm.size else np.inf, 1e-13,
+                        "%s: cell data 'Deformation Gradient' of frame %d is not the per-cell mean of F of that substep" % (label, k),
+                        unit="job:cell-data", config=("celldata", kind))
+            C = np.einsum("ki...,kj...->ij...", Fq, Fq)
+            w, N = np.linalg.eigh(np.moveaxis(C, (0, 1), (-2, -1)))
+            E = np.einsum("...a,...ia,...ja->...ij", np.log(w) / 2, N, N).mean(0)
+            sv = np.array([E[:, i, j] * (1 if i == j else 2) for i, j in (VOIGT if Fq.shape[0] == 3 else VOIGT2)]).T
+            gots = np.asarray(cd["Logarithmic Strain"][0])
+            run.compare("files.job", "clause=frame-cell-data key=Logarithmic Strain", maxabs(gots - sv) / max(maxabs(sv), 1e-300) if gots.shape == sv.shape else np.inf, 1e-9,
+                        "%s: cell data 'Logarithmic Strain' of frame %d is not the documented quantity" % (label, k), unit="job:cell-data",
+                        config=("celldata-strain", kind, fam))
+            pr = (np.log(w)[..., ::-1] / 2).mean(0)  # principal logarithmic strains, descending, per-cell means
+            gotp = np.asarray(cd["Principal Values of Logarithmic Strain"][0])
+            run.compare("files.job", "clause=frame-cell-data key=Principal Values of Logarithmic Strain", maxabs(gotp - pr[:, : gotp.shape[1]]) / max(maxabs(pr), 1e-300),
+                        1e-9, "%s: cell data 'Principal Values of Logarithmic Strain' of frame %d is not the documented quantity" % (label, k),
+                        unit="job:cell-data:principal")
+            # as many principal values as the deformation gradient has rows (two for a plain 2D field)
+            if gotp.shape == pr.shape:
+                run.ok("files.job", unit="job:cell-data:principal-count", config=("principal-count", kind))
+            else:
+                run.fail("files.job", "clause=frame-cell-data key=Principal Values of Logarithmic Strain[count]",
+                         "%s: %s principal values per cell for a %dx%d deformation gradient" % (label, gotp.shape[1:], Fq.shape[0], Fq.shape[0]))
+        if custom:
+            run.compare("files.job", "clause=custom-point-data", maxabs(pd["Twice"] - 2 * u3), 0.0, "%s: custom point data differ" % label, unit="job:custom-data")
+            Jm = np.linalg.det(np.moveaxis(Fq, (0, 1), (-2, -1))).mean(0)
+            run.compare("files.job", "clause=custom-cell-data", maxabs(np.asarray(cd["Volume Ratio"][0]).ravel() - Jm), 1e-14, "%s: custom cell data differ" % label,
+                        unit="job:custom-data")
+            # callbacks that read the substep they are given: residual and iteration count of the yielded result of that frame
+            fref = y["fun"][: u.size].reshape(u.shape)
+            gotf = np.asarray(pd["Residual"])
+            run.compare("files.job", "clause=custom-data-of-the-substep key=Residual", maxabs(gotf - fref) if gotf.shape == fref.shape else np.inf, 0.0,
+                        "%s: point data returned from 'substep.fun' in frame %d are not the residual of the %d-th yielded substep" % (label, k, k),
+                        unit="job:substep-data", config=("substep-data", kind))
+            goti = np.asarray(cd["Iterations"][0]).ravel()
+            run.compare("files.job", "clause=custom-data-of-the-substep key=Iterations", maxabs(goti - float(y["iterations"])) if goti.size == len(conn) else np.inf, 0.0,
+                        "%s: cell data returned from 'substep.iterations' in frame %d are not the iteration count of the %d-th yielded substep" % (label, k, k),
+                        unit="job:substep-data")
+    return nframes
+
+
+def custom_data(fem, ncells):
+    """The caller's own point / cell data: two that read the field, two that read the substep (robust against a missing substep: the
+    comparison decides, not an AttributeError inside the job)."""
+    def residual(field, substep):
+        f, v = getattr(substep, "fun", None), field[0].values
+        return np.full(v.shape, np.nan) if f is None else np.asarray(f, dtype=float).ravel()[: v.size].reshape(v.shape)
+
+    def iterations(field, substep):
+        return [np.full(ncells, float(getattr(substep, "iterations", np.nan)))]
+    pdata = {"Twice": lambda field, substep: 2.0 * fem.math.displacement(field), "Residual": residual}
+    cdata = {"Volume Ratio": lambda field, substep: [np.linalg.det(np.moveaxis(field.extract()[0], (0, 1), (-2, -1))).mean(0)], "Iterations": iterations}
+    return pdata, cdata
+
+
+def case_job(rep, more=False):
     def fn(run):
         import felupe as fem
         import meshio
-        rng = rng_for(run.seed, "C20", "job", rep)
+        rng = rng_for(run.seed, "C20", "jobx" if more else "job", rep)
         mon = SolverMonitor(run, reassemble=False).attach()
+        ys, tags = [], []
+        record_yields(ys)
         try:
-            kind, fam = [("3d", "hexahedron"), ("planestrain", "quad"), ("3d", "tetra"), ("ni", "hexahedron"), ("3d", "hexahedron20"),
-                         ("mixed", "hexahedron"), ("axisymmetric", "quad")][rep % 7]
-            field, bounds, lc, items, mesh = C07.build(rng, kind, fam, "NeoHooke", ())
+            kind, fam = JOBS_MORE[rep % len(JOBS_MORE)] if more else JOBS[rep % 7]
+            # second list: a body force next to the solid body, which the first step leaves out (the item lists of the steps differ)
+            loaded = more and kind in ("3d", "planestrain")
+            field, bounds, items, mesh, x0 = build_job(rng, kind, fam, ("force",) if loaded else ())
             L0 = float(mesh.points[:, 0].max())
             nsteps = int(rng.integers(1, 4))
-            inject = rep % 3 == 2
+            heavy = more and fam in ("hexahedron27", "tetra10")  # quadratic 3D families: at most two steps of at most three substeps (cost)
+            nsteps = min(nsteps, 2) if heavy else nsteps
+            inject = rep % 3 == 2 and not more
             steps, total, fail_at = [], 0, None
             last = 0.0
             fail_step = int(rng.integers(0, nsteps))  # any step: no frame of a later step may appear
             for s in range(nsteps):
                 n = int(rng.integers(1, 6))
+                n = min(n, 3) if heavy else n
                 move = np.linspace(last, last + float(rng.uniform(0.05, 0.15)) * L0, n + 1)[1:]
                 if inject and s == fail_step:
                     k = int(rng.integers(0, n))
                     move = move.copy()
                     move[k] = -4.0 * L0
                     fail_at = total + k
-                steps.append(fem.Step(items, ramp={bounds["move"]: move}, boundaries=bounds))
+                steps.append(fem.Step(items[:1] if loaded and s == 0 else items, ramp={bounds["move"]: move}, boundaries=bounds))
                 last = float(move[-1])
                 total += n
-            custom = rep % 2 == 0
-            pdata = {"Twice": lambda field, substep: 2.0 * fem.math.displacement(field)} if custom else None
-            cdata = {"Volume Ratio": lambda field, substep: [np.linalg.det(np.moveaxis(field.extract()[0], (0, 1), (-2, -1))).mean(0)]} if custom else None
+            if loaded and nsteps > 1:
+                tags.append("job:steps-with-other-items")
+            shape = rep % 3 if more else 0
+            if shape == 1:
+                # a step without a ramp: one substep (one frame) at the values reached
+                steps.insert(1, fem.Step(items, boundaries=bounds))
+                total += 1
+                tags.append("job:step:no-ramp")
+            elif shape == 2:
+                # a step with an empty ramp in front: no substep, no frame
+                steps.insert(0, fem.Step(items, ramp={bounds["move"]: np.zeros(0)}, boundaries=bounds))
+                tags.append("job:step:empty-ramp")
+            custom = ((rep // 2) % 2 == 0) if more else (rep % 2 == 0)
+            pdata, cdata = custom_data(fem, mesh.ncells) if custom else (None, None)
             with scratch() as d:
-                job = fem.Job(steps)
-                raised = None
-                try:
-                    opts = {}
-                    if rep % 4 == 1:
-                        opts = {"x0": field, "parallel": True}  # the documented start field and threaded assembly
-                        run.units["job:option:x0+parallel"] += 1
-                    nodefaults = rep % 5 == 3
-                    if nodefaults:
-                        opts.update(point_data_default=False, cell_data_default=False)  # only what the caller hands over is written
-                        run.units["job:option:no-defaults"] += 1
-                    job.evaluate(filename="result.xdmf", point_data=pdata, cell_data=cdata, verbose=False, tol=1e-9, maxiter=10, **opts)
-                except ValueError as e:
-                    raised = e
-                rec = [e for e in mon.trace.events if e["kind"] == "job.callback"]
-                writes = [e for e in mon.trace.events if e["kind"] == "job.write"]
-                label = "job %d (%s/%s, %d steps%s)" % (rep, kind, fam, nsteps, ", injected failure" if inject else "")
-                if not os.path.exists("result.xdmf"):
-                    run.fail("files.job", "clause=file-written", "%s: no file written" % label)
-                    return
-                with meshio.xdmf.TimeSeriesReader("result.xdmf") as rd:
-                    pts, cells = rd.read_points_cells()
-                    nframes = rd.num_steps
-                    frames = [rd.read_data(k) for k in range(nframes)]
-                if nframes == len(rec) == len(writes):
-                    run.ok("files.job", unit="job:frame-count", config=("frames", nsteps, inject),
-                           sample={"job": label, "frames": int(nframes), "converged_substeps": len(rec), "failure_at": fail_at})
-                else:
-                    run.fail("files.job", "clause=one-frame-per-converged-substep", "%s: %d frames in the file, %d converged substeps" % (label, nframes, len(rec)))
-                    return
-                if inject:
-                    if raised is not None and nframes == fail_at:
-                        run.ok("files.job", unit="job:early-stop")
-                    elif raised is not None and nframes < fail_at:
-                        run.skip("files.job", "a regular substep failed before the injected one")
-                    elif raised is None:
-                        run.skip("files.job", "injected infeasible substep converged")
-                    else:
-                        run.fail("files.job", "clause=early-stop-frames", "%s: %d frames although the job failed at substep %d" % (label, nframes, fail_at))
-                if not np.array_equal(pts[:, : mesh.dim], mesh.points) or (pts.shape[1] > mesh.dim and maxabs(pts[:, mesh.dim:]) != 0):
-                    run.fail("files.job", "clause=mesh-points", "%s: points in the file differ from the mesh (or the padded coordinate is not zero)" % label)
-                if len(cells) == 1 and cells[0].type == mesh.cell_type and np.array_equal(np.asarray(cells[0].data), mesh.cells):
-                    run.ok("files.job", unit="job:mesh-cells", config=("job-cells", fam))
-                else:
-                    run.fail("files.job", "clause=mesh-cells", "%s: cell block of the file (type / connectivity) differs from the mesh of the job" % label)
-                times = [f[0] for f in frames]
-                if times == list(range(nframes)):
-                    run.ok("files.job", unit="job:frame-order")
-                else:
-                    run.fail("files.job", "clause=frame-order", "%s: frame times %s" % (label, times))
-                reg = items[0].field.region
-                for k, (t, pd, cd) in enumerate(frames):
-                    u = rec[k]["values"][0]
-                    u3 = np.pad(u, ((0, 0), (0, 3 - u.shape[1])))
-                    if nodefaults:
-                        if set(pd) == set(pdata or {}) and set(cd) == set(cdata or {}):
-                            run.ok("files.job", unit="job:no-default-data")
-                        else:
-                            run.fail("files.job", "clause=no-default-data", "%s: with the default data switched off frame %d holds %s / %s" % (label, k, sorted(pd), sorted(cd)))
-                        if custom:
-                            run.compare("files.job", "clause=custom-point-data", maxabs(pd["Twice"] - 2 * u3), 0.0, "%s: custom point data differ" % label, unit="job:custom-data")
-                        continue
-                    missing = [k_ for k_ in ("Displacement",) if k_ not in pd] + [k_ for k_ in ("Deformation Gradient", "Logarithmic Strain", "Principal Values of Logarithmic Strain") if k_ not in cd]
-                    if missing:
-                        # the documented default data are written next to the caller's own data
-                        run.fail("files.job", "clause=default-data-present", "%s: frame %d lacks the default data %s" % (label, k, missing))
-                        continue
-                    run.compare("files.job", "clause=frame-displacement", maxabs(pd["Displacement"] - u3), 0.0,
-                                "%s: 'Displacement' of frame %d differs from the field of converged substep %d" % (label, k, k),
-                                unit="job:displacement", config=("displacement", kind))
-                    # documented per-cell quantities, recomputed from the recorded field
-                    F0 = type(items[0].field[0])(reg, dim=u.shape[1], values=u)
-                    Fq = fem.FieldContainer([F0]).extract()[0]
-                    Fm = np.moveaxis(Fq.mean(-2), -1, 0)
-                    got = np.asarray(cd["Deformation Gradient"][0]).reshape(Fm.shape)
-                    run.compare("files.job", "clause=frame-cell-data key=Deformation Gradient", maxabs(got - Fm) / maxabs(Fm), 1e-13,
-                                "%s: cell data 'Deformation Gradient' of frame %d is not the per-cell mean of F of that substep" % (label, k),
-                                unit="job:cell-data", config=("celldata", kind))
-                    C = np.einsum("ki...,kj...->ij...", Fq, Fq)
-                    w, N = np.linalg.eigh(np.moveaxis(C, (0, 1), (-2, -1)))
-                    E = np.einsum("...a,...ia,...ja->...ij", np.log(w) / 2, N, N).mean(0)
-                    sv = np.array([E[:, i, j] * (1 if i == j else 2) for i, j in VOIGT]).T
-                    run.compare("files.job", "clause=frame-cell-data key=Logarithmic Strain", maxabs(np.asarray(cd["Logarithmic Strain"][0]) - sv) / max(maxabs(sv), 1e-300), 1e-9,
-                                "%s: cell data 'Logarithmic Strain' of frame %d is not the documented quantity" % (label, k), unit="job:cell-data")
-                    pr = (np.log(w)[..., ::-1] / 2).mean(0)  # principal logarithmic strains, descending, per-cell means
-                    gotp = np.asarray(cd["Principal Values of Logarithmic Strain"][0])
-                    run.compare("files.job", "clause=frame-cell-data key=Principal Values of Logarithmic Strain", maxabs(gotp - pr[:, : gotp.shape[1]]) / max(maxabs(pr), 1e-300),
-                                1e-9, "%s: cell data 'Principal Values of Logarithmic Strain' of frame %d is not the documented quantity" % (label, k),
-                                unit="job:cell-data:principal")
-                    if custom:
-                        run.compare("files.job", "clause=custom-point-data", maxabs(pd["Twice"] - 2 * u3), 0.0, "%s: custom point data differ" % label, unit="job:custom-data")
-                        Jm = np.linalg.det(np.moveaxis(Fq, (0, 1), (-2, -1))).mean(0)
-                        run.compare("files.job", "clause=custom-cell-data", maxabs(np.asarray(cd["Volume Ratio"][0]).ravel() - Jm), 1e-14, "%s: custom cell data differ" % label,
-                                    unit="job:custom-data")
+                # the subclass that records a force-displacement curve in its own callback writes the same file
+                curve = more and rep % 2 == 1
+                job = fem.CharacteristicCurve(steps, boundary=bounds["move"]) if curve else fem.Job(steps)
+                if curve:
+                    tags.append("job:class:CharacteristicCurve")
+                opts = {}
+                if rep % 4 == 1 and not more:
+                    opts = {"x0": field, "parallel": True}  # the documented start field and threaded assembly
+                    run.units["job:option:x0+parallel"] += 1
+                if x0 is not None:
+                    opts["x0"] = x0  # bodies on sub-meshes: the global container is handed over, its mesh is the mesh of the file
+                    tags.append("job:option:x0-is-not-the-first-item")
+                nodefaults = rep % 5 == 3 and not more
+                if nodefaults:
+                    opts.update(point_data_default=False, cell_data_default=False)  # only what the caller hands over is written
+                    run.units["job:option:no-defaults"] += 1
+                points, given = mesh.points, more and rep % 4 == 2
+                if given:
+                    # mesh=: the points of the given (meshio) mesh are written, whatever the fields live on
+                    points = np.pad(mesh.points + 0.01 * L0 * rng.uniform(-1, 1, mesh.points.shape), ((0, 0), (0, 3 - mesh.dim)))
+                    opts["mesh"] = meshio.Mesh(points.copy(), {mesh.cell_type: np.array(mesh.cells).copy()})
+                label = "job %s%d (%s/%s, %d steps%s)" % ("x" if more else "", rep, kind, fam, len(steps), ", injected failure" if inject else "")
+                J = dict(label=label, field=field, kind=kind, fam=fam, nsteps=nsteps, total=total, inject=inject, fail_at=fail_at, pflag=not nodefaults, cflag=not nodefaults,
+                         pdata=pdata, cdata=cdata, custom=custom, points=np.array(points).copy(), cells=np.array(mesh.cells).copy(), cell_type=str(mesh.cell_type), mesh_given=given)
+                if evaluate_and_judge(run, mon, ys, job, "result.xdmf", opts, J):
+                    for tag in tags:  # the special shapes of this job count where frames were judged
+                        run.units[tag] += 1
+                if more and rep % 4 == 3:
+                    # the same job object evaluated once more (from the state reached) into another file: the frame counter starts at 0
+                    # again and the second file holds the substeps of the second evaluation
+                    J2 = dict(J, label=label + " second evaluation")
+                    if evaluate_and_judge(run, mon, ys, job, "again.xdmf", opts, J2):
+                        run.units["job:evaluated-twice"] += 1
                 check_trace(run, mon.trace, label)
         finally:
             attach.detach_all()
     return fn
 
 
-def case_save(rep):
+def case_flags(rep):
+    """The two default-data flags are independent of one another and of the caller's own data: all four combinations, with and without
+    custom data, on one small problem (a 3D and a plain 2D one)."""
+    def fn(run):
+        import felupe as fem
+        rng = rng_for(run.seed, "C20", "flags", rep)
+        mon = SolverMonitor(run, reassemble=False).attach()
+        ys = []
+        record_yields(ys)
+        try:
+            kind, fam = [("3d", "hexahedron"), ("plane2d", "quad")][rep % 2]
+            field, bounds, items, mesh, x0 = build_job(rng, kind, fam)
+            L0 = float(mesh.points[:, 0].max())
+            with scratch() as d:
+                for n, (custom, pflag, cflag) in enumerate([(c_, p_, q_) for c_ in (False, True) for p_ in (True, False) for q_ in (True, False)]):
+                    move = float(rng.uniform(0.05, 0.15)) * L0 * np.array([0.5, 1.0])
+                    job = fem.Job([fem.Step(items, ramp={bounds["move"]: move}, boundaries=bounds)])
+                    pdata, cdata = custom_data(fem, mesh.ncells) if custom else (None, None)
+                    label = "flags %d (%s/%s, point_data_default=%s, cell_data_default=%s%s)" % (rep, kind, fam, pflag, cflag, ", custom data" if custom else "")
+                    J = dict(label=label, field=field, kind=kind, fam=fam, nsteps=1, total=2, inject=False, fail_at=None, pflag=pflag, cflag=cflag, pdata=pdata, cdata=cdata,
+                             custom=custom, points=np.array(mesh.points).copy(), cells=np.array(mesh.cells).copy(), cell_type=str(mesh.cell_type), mesh_given=False)
+                    if evaluate_and_judge(run, mon, ys, job, "flags%d.xdmf" % n, dict(point_data_default=pflag, cell_data_default=cflag), J):
+                        run.units["job:flags:%s:%s" % (pflag, cflag)] += 1
+        finally:
+            attach.detach_all()
+    return fn
+
+
+SAVES = [("3d", "hexahedron"), ("3d", "tetra"), ("3d", "hexahedron20"), ("mixed", "hexahedron"), ("planestrain", "quad"), ("axisymmetric", "quad")]
+SAVES_MORE = [("planestrain", "triangle"), ("planestrain", "quad8"), ("3d", "hexahedron27"), ("planestrain", "quad9"), ("3d", "tetra10"), ("planestrain", "triangle6")]  # the families no save had used
+
+
+def case_save(rep, more=False):
     def fn(run):
         import felupe as fem
         import meshio
-        rng = rng_for(run.seed, "C20", "save", rep)
-        kind, fam = [("3d", "hexahedron"), ("3d", "tetra"), ("3d", "hexahedron20"), ("mixed", "hexahedron"), ("planestrain", "quad"), ("axisymmetric", "quad")][rep % 6]
+        rng = rng_for(run.seed, "C20", "savex" if more else "save", rep)
+        kind, fam = SAVES_MORE[rep % len(SAVES_MORE)] if more else SAVES[rep % 6]
         field, bounds, lc, items, mesh = C07.build(rng, kind, fam, "NeoHooke", ())
+        # unit systems: the same law with its moduli scaled (stresses and forces of 1e-9 .. 1e6): what is written is what was handed
+        # over / computed, whatever its magnitude (all clauses below are exact or relative to the largest entry)
+        scale = [1.0, 1e-9, 1e6][(rep + rep // 6) % 3]
+        if kind != "mixed" and scale != 1.0:
+            um = items[0].umat
+            items = [fem.SolidBody(fem.NeoHooke(mu=scale * um.mu, bulk=scale * um.bulk), field)]
+            run.units["save:stress-scale:%g" % scale] += 1
         res = fem.newtonrhapson(items=items, verbose=False, **lc)
         run.units["save:kind:" + kind] += 1
         with scratch() as d:
@@ -341,6 +655,17 @@ def case_save(rep):
                             "save(): reaction forces in the file differ from the given forces", unit="save:forces", config=("save-forces", ext, fam))
                 if not np.array_equal(back.points[:, : mesh.dim], mesh.points) or not np.array_equal(back.cells[0].data, mesh.cells) or back.cells[0].type != mesh.cell_type:
                     run.fail("files.save", "format=%s clause=mesh" % ext, "save(): mesh in the file differs")
+                # per-cell data of the caller (cell_data=, one array per cell block) are written unchanged next to the point data
+                marker = rng.uniform(-1, 1, mesh.ncells)
+                fn5 = os.path.join(d, "cells." + ext)
+                fem.tools.save(field.region, res.x, forces=forces, cell_data={"Marker": [marker.copy()]}, filename=fn5)
+                try:
+                    b5 = meshio.read(fn5)
+                    gotm = np.asarray(b5.cell_data["Marker"][0]).ravel()
+                    run.compare("files.save", "format=%s clause=user-cell-data" % ext, max(maxabs(gotm - marker) if gotm.shape == marker.shape else np.inf, maxabs(b5.point_data["Displacements"] - res.x[0].values)), 0.0,
+                                "save(cell_data=...): the caller's cell data (or the displacements next to them) are not written unchanged", unit="save:cell-data", config=("save-cell-data", ext, fam))
+                except (Exception, SystemExit) as exc:
+                    run.fail("files.save", "format=%s clause=user-cell-data" % ext, "save(cell_data=...): the cell data are not in the file or it cannot be read back (%s: %s)" % (type(exc).__name__, str(exc)[:100]))
                 # user data next to it: the caller's dictionary is only read (a second save with the same dictionary and without
                 # forces writes no forces), tensor-valued point data as in the tutorial (topoints of a stress) keep the file readable
                 pd_user = {"Temperature": rng.uniform(0, 1, mesh.npoints)}
@@ -370,6 +695,11 @@ def case_save(rep):
                         run.ok("files.save", unit="save:user-data")
                 # the documented call with the stress handed over as well: the file stays readable, displacements and forces are
                 # unchanged and the stress point data are P F^T / det F shifted to the points
+                nq, ppc = field.region.quadrature.npoints, mesh.cells.shape[1]
+                if 1 < nq < ppc:
+                    # fewer quadrature points than points per cell (and more than one): there is no shift of the values to the points
+                    run.skip("files.save", "stress point data: fewer quadrature points than points per cell")
+                    continue
                 fn2 = os.path.join(d, "result_stress." + ext)
                 solid = items[0]
                 grad_ = solid.evaluate.gradient(res.x)
@@ -385,10 +715,11 @@ def case_save(rep):
                 Fq = res.x.extract()[0]
                 P = np.asarray(grad_[0], float)
                 sig = np.einsum("ik...,jk...->ij...", P, Fq) / np.linalg.det(np.moveaxis(Fq, (0, 1), (-2, -1)))
-                refs = fem.topoints(sig, field.region).reshape(mesh.npoints, 9)
+                # shifted to the points by an own scatter-mean over the connectivity (save itself uses the library's topoints)
+                refs = scatter_mean(sig, np.asarray(mesh.cells), mesh.npoints).reshape(mesh.npoints, 9)
                 # principal values of the Cauchy stress at the quadrature points, shifted to the points, under the names that say which
                 sp = np.moveaxis(np.linalg.eigvalsh(np.moveaxis(0.5 * (sig + np.swapaxes(sig, 0, 1)), (0, 1), (-2, -1))), -1, 0)  # ascending
-                spp = fem.topoints(sp, field.region)
+                spp = scatter_mean(sp, np.asarray(mesh.cells), mesh.npoints)
                 for col, nm in ((2, "Max."), (1, "Int."), (0, "Min.")):
                     gotp = np.asarray(back2.point_data["Cauchy Stress (%s Principal)" % nm]).ravel()
                     run.compare("files.save", "format=%s clause=principal-stress which=%s" % (ext, nm), maxabs(gotp - spp[:, col]) / max(maxabs(spp), 1e-300), 1e-10,
@@ -411,8 +742,14 @@ def cases(tier, seed):
         out.append(("container3d:%d" % rep, case_container3d(rep)))
     for rep in range(10 if tier == "quick" else 60):
         out.append(("job:%d" % rep, case_job(rep)))
+    for rep in range(JOBS_MORE_QUICK if tier == "quick" else 3 * len(JOBS_MORE)):
+        out.append(("jobx:%d" % rep, case_job(rep, more=True)))
+    for rep in range(2 if tier == "quick" else 6):
+        out.append(("flags:%d" % rep, case_flags(rep)))
     for rep in range(6 if tier == "quick" else 18):
         out.append(("save:%d" % rep, case_save(rep)))
+    for rep in range(len(SAVES_MORE) if tier == "quick" else 2 * len(SAVES_MORE)):
+        out.append(("savex:%d" % rep, case_save(rep, more=True)))
     return out
 
 
@@ -424,6 +761,14 @@ def _required():
     req += ["mesh:VTK_LAGRANGE_QUADRILATERAL:vtu", "mesh:VTK_LAGRANGE_HEXAHEDRON:vtu", "container:shared-points", "container:lines", "read:merge-shares-points",
             "read:cell-geometry", "job:frame-count", "job:frame-order", "job:displacement", "job:cell-data", "job:custom-data", "job:early-stop",
             "save:displacements", "save:forces", "save:principal", "save:cauchy", "save:kind:mixed", "save:kind:planestrain", "save:kind:axisymmetric", "job:mesh-cells", "job:no-default-data", "save:user-data"]
+    # third audit: the file as a foreign reader sees it, write(**kwargs), one block per mesh and the selections of read(); frames against
+    # the yielded sequence and the drawn ramps, independent default-data flags, callbacks that read the substep, x0 that is not the first
+    # item's field, mesh=, the curve job, steps without / with an empty ramp, a job evaluated twice; save(cell_data=), other unit systems
+    req += ["mesh:file-cell-block", "mesh:write-with-data", "container:one-block-per-mesh", "read:cellblock", "read:file-format", "job:frames=yields", "job:frames=ramp",
+            "job:callback=yield", "job:displacement=yield", "job:timetrack", "job:cell-data:principal-count", "job:substep-data", "job:one-default-flag",
+            "job:flags:True:True", "job:flags:True:False", "job:flags:False:True", "job:flags:False:False", "job:option:mesh", "job:option:x0-is-not-the-first-item",
+            "job:class:CharacteristicCurve", "job:step:no-ramp", "job:step:empty-ramp", "job:evaluated-twice", "save:cell-data", "save:stress-scale:1e-09",
+            "save:stress-scale:1e+06"]
     return req
 
 
@@ -432,8 +777,12 @@ SPEC = {
     "rule": ("13 cell types x {vtk, vtu, xdmf} mesh round trips with perturbed coordinates (refusing writers are counted as unsupported), "
              "multi-block containers read with and without merging, jobs of 1..3 steps x 1..5 substeps on five problem kinds with default and "
              "custom point/cell data and with an infeasible substep injected in every third job, tools.save; files live in a scratch "
-             "directory that is removed; a configuration is distinct by (cell type, format) or (job shape, clause)"),
+             "directory that is removed; a configuration is distinct by (cell type, format) or (job shape, clause); second job list: plain 2D "
+             "fields, two bodies on sub-meshes with the global container as x0, the remaining cell families, Job and CharacteristicCurve, "
+             "steps without / with an empty ramp, mesh=, a second evaluation of one job object; the four combinations of the default-data "
+             "flags with and without custom data; one block per mesh and read(cellblock=, dim=None, file_format=)"),
     "assumptions": ["files are re-read with meshio (read, xdmf.TimeSeriesReader); other readers are not exercised",
-                    "the in-memory sequence is the one recorded at the job's callback boundary"],
+                    "the in-memory sequence is the one the steps yield (own recorder at Step.generate) and the one recorded at the job's callback boundary",
+                    "job files are written with the scratch directory as cwd (meshio puts the .h5 data file of a time series into the cwd)"],
     "jobs": {"quick": 8, "thorough": 16},
 }
